@@ -11,6 +11,10 @@ open Model.C03
 section
 variable {R V : Type} [Num R] [Num V]
 
+/-- a field embedded in a larger zero array with the origin on the origin, both axes -/
+def embed (m n m' n' : Nat) (f : Nat → Nat → V) (j i : Nat) : V :=
+  padded m m' (fun j0 => padded n n' (f j0) i) j
+
 /-- focus to the mask grid (`My × Mx` samples, constants `αy αx`, shift `(sy, sx)` in mask samples, norm `nf`),
 multiply by the mask, return to the `m × n` pupil grid with the inverse kernel and the return leg's own
 constants `αy' αx' sy' sx' nb` -/
